@@ -313,7 +313,7 @@ func TestIsolation(t *testing.T) {
 	if evid.ReplayPath() != "" {
 		t.Skip()
 	}
-	evid.Check(t, "isolation", evid.Scale(4000, 200000), prop)
+	evid.Check(t, "isolation", evid.Scale(12000, 600000), prop)
 }
 
 func TestReplay(t *testing.T) {
